@@ -51,6 +51,8 @@ def run_pair(cfgA, cfgB, perm=None, rtol=0.0, allowed=()):
         a, b = getattr(da, name), getattr(db, name)
         if perm is not None:
             b = permute_phase_axis(name, b, perm)
+        if cfgB.get("swap_elements") and not cfgA.get("swap_elements") and name in ("composition", "fconc", "xEqAlpha", "xEqBeta"):
+            b = np.asarray(b)[..., ::-1]          # per-element histories: last axis is the solute
         ev.append({"e": "cmp", "name": name, "c": arr_cmp(a, b, rtol)})
     ev.append({"e": "cmp", "name": "isIsothermal", "c": "eq" if ra["model"].temperatureParameters._isIsothermal == rb["model"].temperatureParameters._isIsothermal else "gt"})
     # size distributions
@@ -77,6 +79,11 @@ def temperature_pairs():
             a = dict(base, temp=temp, iter=it, temp_via="setter", tag="temp-%s-%s-setter" % (kind, it))
             b = dict(base, temp=temp, iter=it, temp_via="constructor", tag="temp-%s-%s-constructor" % (kind, it))
             out.append((a, b, "%s/%s: setter vs constructor" % (kind, it)))
+            # the parameter object configured through its own setters (built empty, or built with another schedule first)
+            if kind in ("array", "function", "const"):
+                for via in ("constructor-stepwise", "constructor-reconfigured"):
+                    d = dict(base, temp=temp, iter=it, temp_via=via, tag="temp-%s-%s-%s" % (kind, it, via))
+                    out.append((a, d, "%s/%s: setter vs parameter object configured step by step (%s)" % (kind, it, via)))
             # the same schedule supplied only after setup() (the model was set up at the constant temperature the schedule starts at)
             c = dict(base, temp=temp, iter=it, temp_via="after-setup", tag="temp-%s-%s-after-setup" % (kind, it))
             out.append((a, c, "%s/%s: schedule set before vs after setup()" % (kind, it)))
@@ -87,6 +94,21 @@ def temperature_pairs():
         a = dict(base, temp=("array", [0, H(100.0)], [1000, 1006]), iter=it, tag="temp-array-%s" % it)
         b = dict(base, temp=("function", [0, H(100.0)], [1000, 1006]), iter=it, tag="temp-asfunction-%s" % it)
         out.append((a, b, "array vs function/%s" % it))
+    return out
+
+
+def element_order_pairs():
+    """ternary PrecipitateModel runs (scripted backend) with the two solutes listed in both orders: default and no-diffusion precipitates,
+    one and two phases, both iterators"""
+    ph = dict(name="beta", gamma=0.05)
+    g2 = dict(name="gamma", gamma=0.055, xe0=(0.005, 0.004), xb=(0.15, 0.2), w=(0.6, 1.0))
+    out = []
+    for it in ("euler", "rk4"):
+        for label, phases in (("one phase", [ph]), ("one phase, no diffusion in the precipitate", [dict(ph, infinite=False)]),
+                              ("two phases, no diffusion in the second", [ph, dict(g2, infinite=False)])):
+            a = dict(multi=True, phases=phases, calls=[(0.6, 0.02), (0.4, 0.02)], iter=it, cap=500, tag="elorder-%s-%s" % (label.split(",")[0].replace(" ", ""), it))
+            b = dict(a, swap_elements=True, tag=a["tag"] + "-swapped")
+            out.append((a, b, "element order/%s/%s" % (label, it)))
     return out
 
 
